@@ -69,21 +69,11 @@ func concatS(v []*string) *string {
 	}
 	return &s
 }
-func firstS(v []*string) *string {
-	if v[0] == nil {
-		return nil
-	}
-	s := *v[0]
-	return &s
-}
-func lastS(v []*string) *string {
-	p := v[len(v)-1]
-	if p == nil {
-		return nil
-	}
-	s := *p
-	return &s
-}
+
+// the string aggregations hand back the very pointer they were given (as a "first", "min" or "mode" naturally does):
+// what it points to must still be the group's value when the result column is built
+func firstS(v []*string) *string { return v[0] }
+func lastS(v []*string) *string  { return v[len(v)-1] }
 
 // AggsFor lists the aggregation functions applicable to a column kind.
 func AggsFor(k Kind) []string {
